@@ -6,7 +6,7 @@ open Wp
 /-! line protocol of the C17 payload correspondence: one session per line, `key=value` tokens separated by blanks; the same
     keys as `wsdriver` (WsMain.lean), with payloads:
 
-    case supH=0|1 supR=0|1 err=<int> bin=0|1 fail=-|<n> fault=os|os<code>|ok1000|sub|other q=0|1 first=0|1
+    case supH=0|1 supR=0|1 err=<int> bin=0|1 fail=-|<n> fault=os|os<code>|ok1000|sub|val|other icc=0|1 refuse=<int>,… q=0|1 first=0|1
          route=r|u|n inbox=<in>,… reasons=<int>,… mwreq=<step>;… mwres=<step>;… script=<step>;… custom=none|h:<step>;… fd=-|<int>
 
     step = <op>:<catch 0|1|2>:<disc -|int>
@@ -161,7 +161,7 @@ def parseSteps (s : String) : List (Step JDoc) :=
     | _ => (.raiseStatus (-2), .none, none)
 
 def parseFault (s : String) : Fault :=
-  if s == "ok1000" then .ok1000 else if s == "sub" then .subproto else if s == "other" then .other
+  if s == "ok1000" then .ok1000 else if s == "sub" then .subproto else if s == "other" then .other else if s == "val" then .value
   else if s == "os" then .os none else .os ((s.drop 2).toString.toInt?)
 
 def showLog (l : List (Out JDoc)) : String := ",".intercalate (l.map showOut)
@@ -173,12 +173,13 @@ def runCase (ws : List String) : String :=
     supHeaders := kv ws "supH" == "1", supReason := kv ws "supR" == "1",
     reasonCodes := (splitNE (kv ws "reasons") ",").filterMap (·.toInt?),
     errCloseCode := (kv ws "err").toInt!,
-    failAt := (kv ws "fail").toNat?, fault := parseFault (kv ws "fault"), buffered := kv ws "q" == "1",
+    failAt := (kv ws "fail").toNat?, fault := parseFault (kv ws "fault"), faultIcc := kv ws "icc" == "1",
+    refused := (splitNE (kv ws "refuse") ",").filterMap (·.toInt?), buffered := kv ws "q" == "1",
     inbox := inb.filterMap id }
   let h := harnessHandlers (kv ws "bin" == "1")
   if kv ws "first" == "0" then
     let w := rejectFirst w
-    s!"sent={",".intercalate (w.sent.map showEv)} log= hlog= esc={if w.sent.all (·.2) then "-" else showExc w.fault.raw} pub=-"
+    s!"sent={",".intercalate (w.sent.map showEv)} log= hlog= esc={if w.sent.all (·.2) then "-" else showExc (w.fault.raw w.faultIcc)} pub=-"
   else
   let cu := kv ws "custom"
   let c : Cfg JDoc := { custom := if cu.startsWith "h:" then some (parseSteps (cu.drop 2).toString) else none, fd := parseDisc (kv ws "fd") }
